@@ -152,6 +152,69 @@ def dispersionPoly (P : Mat2 α) (w t : α) : α :=
 
 end
 
+/-! ### bounded `while` loops (periodic sources: `correct_periodicity` and friends)
+
+Rust `while cond(s) { s = step(s) }` with an explicit iteration budget: `none` = the budget ran out
+(the real loop is still running).  No arithmetic here, so the facts below hold for every carrier. -/
+
+/-- at most `fuel` iterations of `while cond s { s := step s }` -/
+def iterWhile {σ : Type} (cond : σ → Bool) (step : σ → σ) : Nat → σ → Option σ
+  | 0, s => if cond s then none else some s
+  | n + 1, s => if cond s then iterWhile cond step n (step s) else some s
+
+/-- when the loop exits, its condition is false -/
+theorem iterWhile_exit {σ : Type} (cond : σ → Bool) (step : σ → σ) (n : Nat) (s s' : σ)
+    (h : iterWhile cond step n s = some s') : cond s' = false := by
+  induction n generalizing s with
+  | zero =>
+    simp only [iterWhile] at h
+    split at h
+    · cases h
+    · cases h; simp_all
+  | succ n ih =>
+    simp only [iterWhile] at h
+    split at h
+    · exact ih _ h
+    · cases h; simp_all
+
+/-- anything the body preserves (on states where the condition holds) still holds when the loop exits -/
+theorem iterWhile_inv {σ : Type} (cond : σ → Bool) (step : σ → σ) (I : σ → Prop)
+    (hstep : ∀ s, I s → cond s = true → I (step s)) (n : Nat) (s s' : σ) (hs : I s)
+    (h : iterWhile cond step n s = some s') : I s' := by
+  induction n generalizing s with
+  | zero =>
+    simp only [iterWhile] at h
+    split at h
+    · cases h
+    · cases h; exact hs
+  | succ n ih =>
+    simp only [iterWhile] at h
+    split at h
+    · rename_i hc; exact ih _ (hstep s hs hc) h
+    · cases h; exact hs
+
+/-- a loop whose condition is false on entry does nothing -/
+theorem iterWhile_skip {σ : Type} (cond : σ → Bool) (step : σ → σ) (n : Nat) (s : σ)
+    (h : cond s = false) : iterWhile cond step n s = some s := by
+  cases n <;> simp [iterWhile, h]
+
+section
+variable {α : Type} [Add α] [Sub α] [Div α] [Neg α] [OfNat α 0] [OfNat α 2]
+
+/-- `KalmanState::correct_periodicity` on the state vector, for comparison functions `gt`/`lt`:
+    `while x0 > p/2 { x := x - [p, 0.0] }; while x0 < -p/2 { x := x + [p, 0.0] }` -/
+def wrapVec (gt lt : α → α → Bool) (fuel : Nat) (x : Vec2 α) (p : α) : Option (Vec2 α) :=
+  (iterWhile (fun v => gt v.x0 (p / 2)) (fun v => { x0 := v.x0 - p, x1 := v.x1 - 0 }) fuel x).bind fun v =>
+  iterWhile (fun v => lt v.x0 (-p / 2)) (fun v => { x0 := v.x0 + p, x1 := v.x1 + 0 }) fuel v
+
+/-- the measurement correction closure of `SourceFilter::absorb_measurement`:
+    `while value - prediction > p/2 { value -= p }; while value - prediction < -p/2 { value += p }` -/
+def wrapValue (gt lt : α → α → Bool) (fuel : Nat) (value prediction p : α) : Option α :=
+  (iterWhile (fun v => gt (v - prediction) (p / 2)) (fun v => v - p) fuel value).bind fun v =>
+  iterWhile (fun v => lt (v - prediction) (-p / 2)) (fun v => v + p) fuel v
+
+end
+
 /-! ### the executable instance: `α := F64` -/
 
 scoped instance : OfNat F64 0 := ⟨F64.zero⟩
